@@ -2,6 +2,7 @@ package main
 
 import (
 	"fmt"
+	"unicode"
 	"strings"
 
 	"verifharness/h"
@@ -182,6 +183,8 @@ func c01(c *Ctx) {
 	c.RunEvalCases()
 	rowsStreamC01(c)
 	c.RunEvalCases()
+	unicodeStreamC01(c)
+	c.RunEvalCases()
 
 	// random larger documents
 	n := c.N(6000, 200000)
@@ -233,7 +236,7 @@ func c01(c *Ctx) {
 func rowsStreamC01(c *Ctx) {
 	r := c.Rng
 	n := c.N(4000, 80000)
-	pool := []string{"name", "qty", "k_1", "ab", "x"}
+	pool := []string{"name", "qty", "k_1", "ab", "x", "0", "1", "10"} // keys made of digits are keys like any other
 	for i := 0; i < n; i++ {
 		keys := append([]string{}, pool...)
 		r.Shuffle(len(keys), func(a, b int) { keys[a], keys[b] = keys[b], keys[a] })
@@ -273,7 +276,11 @@ func rowsStreamC01(c *Ctx) {
 			}
 			switch r.Intn(6) {
 			case 0:
-				if len(rr.Ks) > 0 {
+				identKeys := len(rr.Ks) > 0
+				for _, k := range rr.Ks {
+					identKeys = identKeys && k.S[0] >= 'A' // a field name cannot begin with a digit
+				}
+				if identKeys {
 					rr = toStruct(rr)
 				}
 			case 1:
@@ -305,6 +312,58 @@ func rowsStreamC01(c *Ctx) {
 		}
 		want := specLookup(doc, p)
 		ec := c.AddEval("$."+strings.Join(p, "."), rdoc, "rows:"+want.kind, true, want.kind == "found")
+		ec.Check = func(o h.Outcome) string { return checkLookup(o, want) }
+	}
+}
+
+// unicodeStreamC01: keys with letters outside ASCII, the query spelling them in another letter case —
+// including case pairs whose UTF-8 encodings differ in length (k / Kelvin sign, s / long s, U+2C65 /
+// U+023A).  The model folds ASCII only (DESIGN §3.4), so this stream is judged on the implementation
+// with the oracle (strings.EqualFold) alone.
+func unicodeStreamC01(c *Ctx) {
+	r := c.Rng
+	n := c.N(1500, 30000)
+	pairs := [][]string{{"é", "É"}, {"σ", "Σ"}, {"k", "K", "\u212a"}, {"s", "S", "\u017f"}, {"\u2c65", "\u023a"}, {"\u2c66", "\u023e"}, {"å", "Å", "\u212b"}, {"ж", "Ж"}, {"a", "A"}}
+	word := func() [2]string { // a key and another casing of it
+		var a, b strings.Builder
+		for i, m := 0, 1+r.Intn(3); i < m; i++ {
+			p := pairs[r.Intn(len(pairs))]
+			a.WriteString(p[r.Intn(len(p))])
+			b.WriteString(p[r.Intn(len(p))])
+		}
+		return [2]string{a.String(), b.String()}
+	}
+	for i := 0; i < n; i++ {
+		w := word()
+		if !strings.EqualFold(w[0], w[1]) {
+			continue
+		}
+		leaf := h.FloatD(float64(r.Intn(9)))
+		inner := h.Obj(w[0], leaf, "other", h.Str("o"))
+		var doc *D
+		var p []string
+		switch r.Intn(4) {
+		case 0:
+			doc, p = h.Obj("top", inner), []string{"top", w[1]}
+		case 1:
+			doc, p = h.Obj("rows", h.SliceAny(inner, h.Obj("other", h.Str("x")), h.Obj(w[1], h.Str("second")))), []string{"rows", w[1]}
+		case 2:
+			if u := []rune(w[0]); unicode.IsUpper(u[0]) { // a struct field must be exported
+				st := &D{Tag: "st", Fs: []h.Field{{Name: w[0], Exported: true, Iface: true, V: leaf}, {Name: "Other", Exported: true, Iface: true, V: h.Str("o")}}}
+				doc, p = h.Obj("top", st), []string{"top", w[1]}
+			} else {
+				doc, p = h.Obj(w[0], inner), []string{w[1], w[1]}
+			}
+		default:
+			doc, p = inner, []string{w[1]}
+		}
+		base := doc
+		if doc.Tag == "m" && len(doc.Ks) == 1 && doc.Vs[0].Tag == "st" {
+			base = h.Obj("top", h.Obj(w[0], leaf, "Other", h.Str("o")))
+		}
+		want := specLookup(base, p)
+		ec := c.AddEval("$."+strings.Join(p, "."), doc, "unicode-keys:"+want.kind, true, want.kind == "found")
+		ec.Proj = func(o h.Outcome) string { return "" } // not compared with the model (ASCII folding only)
 		ec.Check = func(o h.Outcome) string { return checkLookup(o, want) }
 	}
 }
